@@ -2,21 +2,44 @@
 from . import common, observe
 from .common import ToolError
 
-PRIM_TEXT = {"unit": "()", "str": "&'static str", "DateTime": "OffsetDateTime", "Ovr": "String"}
+PRIM_TEXT = {"unit": "()", "str": "&'static str", "DateTime": "OffsetDateTime", "Ovr": "String", "Sas": "Opaque"}
+# leaf "Sas": a member of the opaque Rust type Opaque, generated through typeshare(serialized_as = "<the same shape over String>") (MC_C04!TOf)
 # leaf "Ovr": a String member that carries a type override for every language (MC_C04!TOf)
 OVERRIDE = ('#[typeshare(swift(type = "Int"), typescript(type = "bigint"), kotlin(type = "Int"), go(type = "uint"), '
             'scala(type = "Short"), python(type = "int"))]')
 
 
+def sas_attr(tree):
+    """the serialized_as attribute of a tree with the Sas leaf: the same shape with String in its place"""
+    def swap(t):
+        if t.get("k") == "prim" and t.get("n") == "Sas":
+            return {"k": "prim", "n": "String"}
+        out = dict(t)
+        for c in ("e", "key", "val"):
+            if c in out:
+                out[c] = swap(out[c])
+        if "args" in out:
+            out["args"] = [swap(a) for a in out["args"]]
+        return out
+    return f'#[typeshare(serialized_as = "{rust_text(swap(tree))}")]'
+
+
+def mentions_sas(t):
+    if t.get("k") == "prim" and t.get("n") == "Sas":
+        return True
+    return any(mentions_sas(x) for x in ([t[c] for c in ("e", "key", "val") if c in t] + list(t.get("args", []))))
+
+
 def mentions_ovr(t):
-    if t.get("k") == "prim" and t.get("n") == "Ovr":
+    """the member carries an attribute of its own (type override / serialized_as): only fields can"""
+    if t.get("k") == "prim" and t.get("n") in ("Ovr", "Sas"):
         return True
     return any(mentions_ovr(x) for x in ([t[c] for c in ("e", "key", "val") if c in t] + list(t.get("args", []))))
 
 
 def tree_key(t):
     """key of a type tree for twin look-ups (the override leaf is written `String` too)"""
-    return rust_text(t) + ("#ovr" if mentions_ovr(t) else "")
+    return rust_text(t) + ("#sas" if mentions_sas(t) else "#ovr" if mentions_ovr(t) else "")
 QUAL = {"String": "std::string::String", "User": "crate::types::User", "Gen": "crate::types::Gen"}
 
 
@@ -136,7 +159,7 @@ def source(tree, default_attr=None, positions=("field", "vfield", "payload", "al
                 f'#[typeshare]\n#[serde(tag = "t", content = "c")]\npub enum AheadE{g2} {{\n    Pay({st}),\n    Sv {{\n        f: {st},\n    }},\n}}\n')
     ty = rust_text(tree)
     g = "<T>" if mentions_param(tree) else ""
-    fattrs = list(default_attr or []) + ([OVERRIDE] if mentions_ovr(tree) else [])
+    fattrs = list(default_attr or []) + ([sas_attr(tree)] if mentions_sas(tree) else [OVERRIDE] if mentions_ovr(tree) else [])
     attr = "".join(f"    {a}\n" for a in fattrs)
     vattr = "".join(f"        {a}\n" for a in fattrs)
     if mentions_ovr(tree):
